@@ -39,6 +39,12 @@ func (c *ConstantOfShape) Init(n *onnx.NodeProto) error {
 				return err
 			}
 
+			if t.IsScalar() {
+				c.value = tensor.New(tensor.FromScalar(t.Data()))
+
+				return nil
+			}
+
 			c.value = tensor.New(tensor.WithBacking(t.Data()))
 			if c.value.Len() != 1 {
 				return ops.ErrInvalidTensor("expected tensor to have one element", c)
